@@ -1,5 +1,5 @@
 """C04 - A loaded voice is exactly what the file says (layout conventions between reader and consumer)."""
-from ..expr import ExprBuilder, show, walk, root_of, stores, to_poly, Poly, canon
+from ..expr import ExprBuilder, show, walk, root_of, stores, to_poly, Poly, canon, success_value
 from .. import paths
 from . import common as cm
 
@@ -283,7 +283,7 @@ def run(ctx):
             return None
         forms = []
         for cb, bb, t, a in sites:
-            pol = to_poly(a[3], atom2)
+            pol = to_poly(success_value(p, a[3]), atom2)
             tree = show(a[1])
             pdf = show(a[2])
             kind = "duration" if "duration_tree" in tree else ("gv" if "gv_tree" in tree else ("stream" if "stream_tree" in tree else "?"))
